@@ -69,7 +69,15 @@ def new_case(w, rng, *, depth=None, roots=("st", "ar", "str", "ur"), tg_kw=None,
     c = Case()
     if depth is None:
         depth = rng.choice([1, 2, 2, 3, 3]) if w.tier == "quick" else rng.choice([1, 2, 3, 3, 4])
-    c.tg = TypeGen(rng, max_depth=depth, **(tg_kw or {}))
+    tgk = dict(tg_kw or {})
+    vgk = dict(vg_kw or {})
+    if w.tier == "thorough":
+        # deeper bounds: more fields per struct, larger static extents, longer dynamic extents
+        tgk.setdefault("max_fields", 6)
+        tgk.setdefault("max_dim", 4)
+        vgk.setdefault("max_dyn", 4)
+    vg_kw = vgk
+    c.tg = TypeGen(rng, max_depth=depth, **tgk)
     c.t = c.tg.root(allow=roots)
     c.cache = {}
     if rng.random() < decoy:
